@@ -97,6 +97,14 @@ def build_rsa(desc):
         q = mat.prime(512)
         if ((p * q).bit_length() + 1) // 2 == 512:
           break
+    elif kind == 'keypair':
+      # two keys of the vulnerable keypair generator from the SAME seed, of different sizes
+      from paranoid_crypto.lib import keypair_generator  # pylint: disable=g-import-not-at-top
+      seed = bytes([k % 256] + [0] * 31)
+      for bits in ((2048, 3072) if k % 2 else (3072, 2048)):
+        kp, kq = keypair_generator.Generator(seed).generate_key(bits)
+        ns.append(int(kp) * int(kq))
+      continue
     elif kind == 'healthy_1024':
       p, q = fam.healthy(mat, 1024)
     elif kind == 'healthy_small':
@@ -216,6 +224,7 @@ CHECKS = {
         'CheckUnseededRand': (rsa_single_checks.CheckUnseededRand, False),
         'CheckSmallUpperDifferences': (rsa_single_checks.CheckSmallUpperDifferences, False),
         'CheckROCA': (rsa_single_checks.CheckROCA, False),
+        'CheckKeypairDenylist': (rsa_single_checks.CheckKeypairDenylist, False),
         'CheckLowHammingWeight': (lambda: _LowHW(20000), False),
         'CheckGCD': (rsa_aggregate_checks.CheckGCD, True),
         'CheckGCDN1': (rsa_aggregate_checks.CheckGCDN1, True),
@@ -239,7 +248,8 @@ CHECKS = {
 AIM = {
     'pattern': 'CheckBitPatterns', 'pattern_big': 'CheckBitPatterns', 'permuted_big': 'CheckPermutedBitPatterns',
     'fermat': 'CheckFermat', 'shared': 'CheckGCD', 'dup': 'CheckGCD', 'n1shared': 'CheckGCDN1',
-    'lowhw': 'CheckLowHammingWeight', 'unseeded': 'CheckUnseededRand', 'near': 'CheckECKeySmallDifference', 'same': 'CheckECKeySmallDifference',
+    'lowhw': 'CheckLowHammingWeight', 'unseeded': 'CheckUnseededRand', 'keypair': 'CheckKeypairDenylist',
+    'near': 'CheckECKeySmallDifference', 'same': 'CheckECKeySmallDifference',
     'small': 'CheckWeakECPrivateKey', 'shift': 'CheckWeakECPrivateKey', 'off': 'CheckValidECKey',
     'msb': 'CheckNonceMSB', 'prefix': 'CheckNonceCommonPrefix', 'postfix': 'CheckNonceCommonPostfix',
     'u2f': 'CheckCr50U2f',
@@ -411,9 +421,9 @@ def strat_contexts(tier):
       arts = draw(st.lists(st.tuples(st.sampled_from(['healthy', 'fermat', 'shared', 'pattern', 'lowhw',
                                                        'n1shared', 'dup', 'pattern_big', 'pattern_big',
                                                        'permuted_big', 'healthy_small', 'healthy_small', 'unseeded', 'unseeded',
-                                                       'healthy_1024']),
+                                                       'healthy_1024', 'keypair']),
                                      st.integers(0, 1000)).map(list), min_size=1, max_size=5))
-      check = draw(st.integers(0, 11))
+      check = draw(st.integers(0, 12))
     elif t == 'ec':
       arts = draw(st.lists(st.tuples(st.integers(0, 5), st.sampled_from(['random', 'near', 'near', 'small',
                                                                           'shift', 'same', 'off']),
